@@ -390,6 +390,16 @@ def main(argv):
         ctx.oblige(False, g.what)
         ctx.violation({"broken": g.what, "detail": g.detail,
                        "note": "the named build/proof/correspondence step no longer checks"}, no_input=True)
+    except Exception:
+        # the correspondence machinery itself failed on what the implementation produced
+        # (output it cannot read, a missing result, …): on the unchanged tree this never
+        # happens; after a change it means the tie between model and code no longer checks.
+        import traceback
+        tb = traceback.format_exc()
+        sys.stderr.write(tb)
+        ctx.oblige(False, "correspondence-run")
+        ctx.violation({"broken": "correspondence-run (the check could not interpret what the implementation produced)",
+                       "detail": tb[-4000:]}, no_input=True)
     if a.tier == "thorough" and ctx.gate and not SCRATCH:
         # independent re-check of the compiled property file and everything it depends on
         try:
